@@ -235,82 +235,117 @@ Proof.
 Qed.
 
 (* ------------------------------------------------------------------ MakeTLSConfig *)
+(* nil entries count as configs without TLS *)
 Definition uniform (p : bool) (cs : list (option tcfg)) : Prop :=
-  forall c, In (Some c) cs -> enabled c = p.
-Definition no_nil (cs : list (option tcfg)) : Prop := forall o, In o cs -> o <> None.
+  forall o, In o cs -> enabled (cfg_of o) = p.
+
+Lemma mk_loop_cons dc bad i prev o cs m :
+  mk_loop dc bad i prev (o :: cs) m =
+  let c := cfg_of o in
+  if match prev with Some p => negb (Bool.eqb (enabled c) p) | None => false end then inl 1
+  else match build dc bad c with
+       | None => inl 2
+       | Some ob =>
+         if match mget (key_of (host c)) m with
+            | Some (_, c2, ob2) => negb (compat c c2 ob ob2)
+            | None => false
+            end then inl 3
+         else mk_loop dc bad (S i) (Some (enabled c)) cs (mset (key_of (host c)) (i, c, ob) m)
+       end.
+Proof. reflexivity. Qed.
 
 Lemma mk_loop_uniform dc bad i p cs m m' :
-  no_nil cs -> mk_loop dc bad i (Some p) cs m = inr m' -> uniform p cs.
+  mk_loop dc bad i (Some p) cs m = inr m' -> uniform p cs.
 Proof.
-  revert i p m; induction cs as [|o cs IH]; intros i p m Hnn H c Hin; [destruct Hin|].
-  destruct o as [c0|]; [|exfalso; apply (Hnn None); [left; reflexivity|reflexivity]].
-  simpl in H.
+  revert i p m; induction cs as [|o cs IH]; intros i p m H o' Hin; [destruct Hin|].
+  rewrite mk_loop_cons in H. cbv zeta in H. set (c0 := cfg_of o) in *.
   destruct (Bool.eqb (enabled c0) p) eqn:Ee; simpl in H; [|discriminate].
   apply Bool.eqb_prop in Ee.
   destruct (build dc bad c0) as [ob|]; [|discriminate].
   destruct (match mget (key_of (host c0)) m with Some (_, c2, ob2) => negb (compat c0 c2 ob ob2) | None => false end);
     [discriminate|].
-  destruct Hin as [Heq|Hin].
-  - injection Heq as <-. exact Ee.
-  - rewrite Ee in H. eapply IH; [|exact H|exact Hin]. intros o Ho. apply Hnn. right. exact Ho.
+  destruct Hin as [<-|Hin].
+  - exact Ee.
+  - rewrite Ee in H. eapply IH; [exact H|exact Hin].
 Qed.
 
-Lemma mixing_rejected dc bad cs :
-  no_nil cs ->
-  (exists c1 c2, In (Some c1) cs /\ In (Some c2) cs /\ enabled c1 <> enabled c2) ->
+(* a group is returned only when every entry is a config with TLS enabled *)
+Lemma group_uniform dc bad cs g :
+  make_tls_config dc bad cs = MkGroup g -> uniform true cs.
+Proof.
+  unfold make_tls_config. destruct cs as [|o cs]; [discriminate|].
+  destruct (mk_loop dc bad 0 None (o :: cs) []) as [e|m'] eqn:E; [discriminate|].
+  destruct (first_enabled (o :: cs)) eqn:Ef; [|discriminate]. intros _.
+  destruct o as [c0|]; [|discriminate]. simpl in Ef.
+  rewrite mk_loop_cons in E. cbv zeta in E. simpl cfg_of in E. cbv iota in E.
+  destruct (build dc bad c0) as [ob|]; [|discriminate].
+  cbn [mget] in E.
+  intros o [<-|Hin].
+  - exact Ef.
+  - rewrite Ef in E. eapply mk_loop_uniform; [exact E|exact Hin].
+Qed.
+
+Lemma enabled_cfg_of o : enabled (cfg_of o) = true -> exists c, o = Some c /\ enabled c = true.
+Proof. destruct o as [c|]; simpl; [eauto|discriminate]. Qed.
+
+Lemma group_all_enabled dc bad cs g :
+  make_tls_config dc bad cs = MkGroup g ->
+  (forall o, In o cs -> o <> None) /\ forall c, In (Some c) cs -> enabled c = true.
+Proof.
+  intro H. pose proof (group_uniform _ _ _ _ H) as Hu. split.
+  - intros o Hin ->. specialize (Hu None Hin). discriminate.
+  - intros c Hin. exact (Hu (Some c) Hin).
+Qed.
+
+Lemma mixing_rejected_gen dc bad cs :
+  (exists o1 o2, In o1 cs /\ In o2 cs /\ enabled (cfg_of o1) <> enabled (cfg_of o2)) ->
   exists e, make_tls_config dc bad cs = MkErr e.
 Proof.
-  intros Hnn [c1 [c2 [H1 [H2 Hd]]]]. unfold make_tls_config.
+  intros [o1 [o2 [H1 [H2 Hd]]]]. unfold make_tls_config.
   destruct cs as [|o cs]; [destruct H1|].
   destruct (mk_loop dc bad 0 None (o :: cs) []) as [e|m'] eqn:E; [eauto|]. exfalso.
-  destruct o as [c0|]; [|apply (Hnn None); [left; reflexivity|reflexivity]].
-  simpl in E.
+  rewrite mk_loop_cons in E. cbv zeta in E. set (c0 := cfg_of o) in *.
   destruct (build dc bad c0) as [ob|]; [|discriminate].
-  simpl in E.
-  assert (Hu : uniform (enabled c0) cs).
-  { eapply mk_loop_uniform; [|exact E]. intros o Ho. apply Hnn. right. exact Ho. }
-  assert (Ha : forall c, In (Some c) (Some c0 :: cs) -> enabled c = enabled c0).
-  { intros c [Heq|Hin]; [injection Heq as <-; reflexivity|apply Hu; exact Hin]. }
+  cbn [mget] in E.
+  pose proof (mk_loop_uniform _ _ _ _ _ _ _ E) as Hu.
+  assert (Ha : forall o', In o' (o :: cs) -> enabled (cfg_of o') = enabled c0).
+  { intros o' [<-|Hin]; [reflexivity|apply Hu; exact Hin]. }
   apply Hd. rewrite (Ha _ H1), (Ha _ H2). reflexivity.
+Qed.
+
+(* TLS and plaintext sites (a nil entry counting as plaintext) on one listener: always an error *)
+Lemma mixing_rejected dc bad cs :
+  mixed cs = true -> exists e, make_tls_config dc bad cs = MkErr e.
+Proof.
+  unfold mixed. intro H. apply andb_true_iff in H as [H1 H2].
+  apply existsb_exists in H1. destruct H1 as [o1 [Hin1 He1]].
+  apply existsb_exists in H2. destruct H2 as [o2 [Hin2 He2]].
+  apply mixing_rejected_gen. exists o1, o2. split; [exact Hin1|]. split; [exact Hin2|].
+  destruct o1 as [c1|]; [|discriminate]. simpl. rewrite He1.
+  destruct o2 as [c2|]; simpl; [|discriminate].
+  apply negb_true_iff in He2. rewrite He2. discriminate.
 Qed.
 
 (* the multiplex error is only raised for a TLS / not-TLS pair (nil counting as not TLS) *)
 Lemma mk_loop_err1 dc bad i prev cs m :
   mk_loop dc bad i prev cs m = inl 1 ->
-  (exists c, In (Some c) cs /\ exists p, (prev = Some p \/ In None cs /\ p = false \/
-                                          exists c', In (Some c') cs /\ enabled c' = p) /\
-                                         enabled c <> p).
+  exists o, In o cs /\ exists p, (prev = Some p \/ exists o', In o' cs /\ enabled (cfg_of o') = p) /\
+                                 enabled (cfg_of o) <> p.
 Proof.
   revert i prev m; induction cs as [|o cs IH]; intros i prev m H; [discriminate|].
-  destruct o as [c0|]; simpl in H.
-  - destruct prev as [p|].
-    + destruct (Bool.eqb (enabled c0) p) eqn:Ee; simpl in H.
-      * destruct (build dc bad c0) as [ob|]; [|discriminate].
-        destruct (match mget (key_of (host c0)) m with Some (_, c2, ob2) => negb (compat c0 c2 ob ob2) | None => false end);
-          [discriminate|].
-        destruct (IH _ _ _ H) as [c [Hin [q [Hq Hne]]]].
-        exists c. split; [right; exact Hin|]. exists q. split; [|exact Hne].
-        destruct Hq as [Hq|[[Hq1 Hq2]|[c' [Hq1 Hq2]]]].
-        -- injection Hq as <-. right. right. exists c0. split; [left; reflexivity|reflexivity].
-        -- right. left. split; [right; exact Hq1|exact Hq2].
-        -- right. right. exists c'. split; [right; exact Hq1|exact Hq2].
-      * exists c0. split; [left; reflexivity|]. exists p. split; [left; reflexivity|].
-        intro Heq. rewrite Heq in Ee. destruct p; discriminate.
-    + destruct (build dc bad c0) as [ob|]; [|discriminate]. simpl in H.
-      destruct (match mget (key_of (host c0)) m with Some (_, c2, ob2) => negb (compat c0 c2 ob ob2) | None => false end);
-        [discriminate|].
-      destruct (IH _ _ _ H) as [c [Hin [q [Hq Hne]]]].
-      exists c. split; [right; exact Hin|]. exists q. split; [|exact Hne].
-      destruct Hq as [Hq|[[Hq1 Hq2]|[c' [Hq1 Hq2]]]].
-      * injection Hq as <-. right. right. exists c0. split; [left; reflexivity|reflexivity].
-      * right. left. split; [right; exact Hq1|exact Hq2].
-      * right. right. exists c'. split; [right; exact Hq1|exact Hq2].
-  - destruct (IH _ _ _ H) as [c [Hin [q [Hq Hne]]]].
-    exists c. split; [right; exact Hin|]. exists q. split; [|exact Hne].
-    destruct Hq as [Hq|[[Hq1 Hq2]|[c' [Hq1 Hq2]]]].
-    + injection Hq as <-. right. left. split; [left; reflexivity|reflexivity].
-    + right. left. split; [right; exact Hq1|exact Hq2].
-    + right. right. exists c'. split; [right; exact Hq1|exact Hq2].
+  rewrite mk_loop_cons in H. cbv zeta in H. set (c0 := cfg_of o) in *.
+  destruct (match prev with Some p => negb (Bool.eqb (enabled c0) p) | None => false end) eqn:Ep.
+  - destruct prev as [p|]; [|discriminate]. apply negb_true_iff in Ep.
+    exists o. split; [left; reflexivity|]. exists p. split; [left; reflexivity|].
+    fold c0. intro Heq. rewrite Heq in Ep. destruct p; discriminate.
+  - destruct (build dc bad c0) as [ob|]; [|discriminate].
+    destruct (match mget (key_of (host c0)) m with Some (_, c2, ob2) => negb (compat c0 c2 ob ob2) | None => false end);
+      [discriminate|].
+    destruct (IH _ _ _ H) as [o1 [Hin [q [Hq Hne]]]].
+    exists o1. split; [right; exact Hin|]. exists q. split; [|exact Hne].
+    destruct Hq as [Hq|[o' [Hq1 Hq2]]].
+    + injection Hq as <-. right. exists o. split; [left; reflexivity|reflexivity].
+    + right. exists o'. split; [right; exact Hq1|exact Hq2].
 Qed.
 
 Lemma mix_error_sound dc bad cs :
@@ -319,26 +354,29 @@ Proof.
   unfold make_tls_config. destruct cs as [|o cs]; [discriminate|].
   destruct (mk_loop dc bad 0 None (o :: cs) []) as [e|m'] eqn:E; [|destruct (first_enabled _); discriminate].
   intro H. injection H as ->.
-  destruct (mk_loop_err1 _ _ _ _ _ _ E) as [c [Hin [p [Hp Hne]]]].
+  destruct (mk_loop_err1 _ _ _ _ _ _ E) as [o1 [Hin [p [Hp Hne]]]].
+  destruct Hp as [Hp|[o2 [Hp1 Hp2]]]; [discriminate|].
+  assert (Hon : forall x, In x (o :: cs) -> enabled (cfg_of x) = true ->
+                existsb (fun o => match o with Some c => enabled c | None => false end) (o :: cs) = true).
+  { intros x Hx Hex. apply existsb_exists. exists x. split; [exact Hx|].
+    destruct x as [c|]; [exact Hex|discriminate]. }
+  assert (Hoff : forall x, In x (o :: cs) -> enabled (cfg_of x) = false ->
+                 existsb (fun o => match o with Some c => negb (enabled c) | None => true end) (o :: cs) = true).
+  { intros x Hx Hex. apply existsb_exists. exists x. split; [exact Hx|].
+    destruct x as [c|]; [simpl in Hex; rewrite Hex; reflexivity|reflexivity]. }
   unfold mixed. apply andb_true_iff.
-  destruct Hp as [Hp|[[Hp1 Hp2]|[c' [Hp1 Hp2]]]]; [discriminate| |].
-  - subst p. split; apply existsb_exists.
-    + exists (Some c). split; [exact Hin|]. destruct (enabled c); [reflexivity|congruence].
-    + exists None. split; [exact Hp1|reflexivity].
-  - destruct (enabled c) eqn:Ec.
-    + split; apply existsb_exists.
-      * exists (Some c). split; [exact Hin|exact Ec].
-      * exists (Some c'). split; [exact Hp1|]. simpl. rewrite Hp2. destruct p; [congruence|reflexivity].
-    + split; apply existsb_exists.
-      * exists (Some c'). split; [exact Hp1|]. simpl. rewrite Hp2. destruct p; [reflexivity|congruence].
-      * exists (Some c). split; [exact Hin|]. simpl. rewrite Ec. reflexivity.
+  destruct (enabled (cfg_of o1)) eqn:E1; destruct (enabled (cfg_of o2)) eqn:E2.
+  - exfalso. apply Hne. congruence.
+  - split; [exact (Hon o1 Hin E1)|exact (Hoff o2 Hp1 E2)].
+  - split; [exact (Hon o2 Hp1 E2)|exact (Hoff o1 Hin E1)].
+  - exfalso. apply Hne. congruence.
 Qed.
 
 (* every entry of the group is one of the given configs, stored under its key, with the
    tls.Config built from that very config *)
 Definition entries_ok dc bad (all : list (option tcfg)) (m : amap gval) : Prop :=
   forall k i c ob, mget k m = Some (i, c, ob) ->
-    nth_error all i = Some (Some c) /\ key_of (host c) = k /\ build dc bad c = Some ob.
+    (exists o, nth_error all i = Some o /\ cfg_of o = c) /\ key_of (host c) = k /\ build dc bad c = Some ob.
 
 Lemma mk_loop_entries dc bad all done cs prev m m' :
   all = done ++ cs ->
@@ -350,43 +388,36 @@ Proof.
   - simpl in H. injection H as <-. exact Hinv.
   - assert (Hall' : all = (done ++ [o]) ++ cs) by (rewrite <- app_assoc; exact Hall).
     assert (Hlen : length (done ++ [o]) = S (length done)) by (rewrite app_length; simpl; lia).
-    destruct o as [c0|]; simpl in H.
-    + destruct (match prev with Some p => negb (Bool.eqb (enabled c0) p) | None => false end); [discriminate|].
-      destruct (build dc bad c0) as [ob|] eqn:Eb; [|discriminate].
-      destruct (match mget (key_of (host c0)) m with Some (_, c2, ob2) => negb (compat c0 c2 ob ob2) | None => false end);
-        [discriminate|].
-      rewrite <- Hlen in H. eapply IH; [exact Hall'| |exact H].
-      intros k i c ob' Hg. rewrite mget_mset in Hg.
-      destruct (beq (key_of (host c0)) k) eqn:Ek.
-      * injection Hg as <- <- <-. apply beq_eq in Ek. split; [|split; [exact Ek|exact Eb]].
-        rewrite Hall. rewrite nth_error_app2; [|lia]. rewrite Nat.sub_diag. reflexivity.
-      * apply Hinv. exact Hg.
-    + rewrite <- Hlen in H. eapply IH; [exact Hall'|exact Hinv|exact H].
+    rewrite mk_loop_cons in H. cbv zeta in H. set (c0 := cfg_of o) in *.
+    destruct (match prev with Some p => negb (Bool.eqb (enabled c0) p) | None => false end); [discriminate|].
+    destruct (build dc bad c0) as [ob|] eqn:Eb; [|discriminate].
+    destruct (match mget (key_of (host c0)) m with Some (_, c2, ob2) => negb (compat c0 c2 ob ob2) | None => false end);
+      [discriminate|].
+    rewrite <- Hlen in H. eapply IH; [exact Hall'| |exact H].
+    intros k i c ob' Hg. rewrite mget_mset in Hg.
+    destruct (beq (key_of (host c0)) k) eqn:Ek.
+    + injection Hg as <- <- <-. apply beq_eq in Ek. split; [|split; [exact Ek|exact Eb]].
+      exists o. split; [|reflexivity].
+      rewrite Hall. rewrite nth_error_app2; [|lia]. rewrite Nat.sub_diag. reflexivity.
+    + apply Hinv. exact Hg.
 Qed.
 
 Lemma group_entries dc bad cs g :
-  make_tls_config dc bad cs = MkGroup g -> entries_ok dc bad cs g.
+  make_tls_config dc bad cs = MkGroup g ->
+  forall k i c ob, mget k g = Some (i, c, ob) ->
+    nth_error cs i = Some (Some c) /\ key_of (host c) = k /\ build dc bad c = Some ob.
 Proof.
+  intro Hmk. pose proof (group_uniform _ _ _ _ Hmk) as Hu. revert Hmk.
   unfold make_tls_config. destruct cs as [|o cs]; [discriminate|].
   destruct (mk_loop dc bad 0 None (o :: cs) []) as [e|m'] eqn:E; [discriminate|].
   destruct (first_enabled (o :: cs)); [|discriminate]. intro H. injection H as <-.
-  eapply (mk_loop_entries dc bad (o :: cs) [] (o :: cs)); [reflexivity| |exact E].
-  intros k i c ob Hg. discriminate.
-Qed.
-
-(* a group is only returned when its first config has TLS enabled; without nil entries every
-   config then has *)
-Lemma group_all_enabled dc bad cs g :
-  no_nil cs -> make_tls_config dc bad cs = MkGroup g -> uniform true cs.
-Proof.
-  unfold make_tls_config. intros Hnn. destruct cs as [|o cs]; [discriminate|].
-  destruct (mk_loop dc bad 0 None (o :: cs) []) as [e|m'] eqn:E; [discriminate|].
-  destruct (first_enabled (o :: cs)) eqn:Ef; [|discriminate]. intros _.
-  destruct o as [c0|]; [|discriminate]. simpl in Ef. simpl in E.
-  destruct (build dc bad c0) as [ob|]; [|discriminate]. simpl in E.
-  intros c [Heq|Hin].
-  - injection Heq as <-. exact Ef.
-  - rewrite Ef in E. eapply mk_loop_uniform; [|exact E|exact Hin]. intros o Ho. apply Hnn. right. exact Ho.
+  assert (Hent : entries_ok dc bad (o :: cs) m').
+  { eapply (mk_loop_entries dc bad (o :: cs) [] (o :: cs)); [reflexivity| |exact E].
+    intros k i c ob Hg. discriminate. }
+  intros k i c ob Hg. destruct (Hent _ _ _ _ Hg) as [[o' [Hn Hc]] [Hk Hb]].
+  split; [|split; assumption].
+  rewrite Hn. f_equal. assert (Hin : In o' (o :: cs)) by (eapply nth_error_In; exact Hn).
+  destruct (enabled_cfg_of o' (Hu o' Hin)) as [c1 [-> _]]. simpl in Hc. congruence.
 Qed.
 
 Lemma build_enabled_fields dc bad c ob :
@@ -427,8 +458,8 @@ Proof.
 Qed.
 
 Definition own_ok dc bad (done : list (option tcfg)) (m : amap gval) : Prop :=
-  forall c, In (Some c) done ->
-    exists i c' ob, mget (key_of (host c)) m = Some (i, c', ob) /\ build dc bad c = Some ob.
+  forall o, In o done ->
+    exists i c' ob, mget (key_of (host (cfg_of o))) m = Some (i, c', ob) /\ build dc bad (cfg_of o) = Some ob.
 
 Lemma mk_loop_own dc bad done cs prev m m' :
   own_ok dc bad done m ->
@@ -439,37 +470,34 @@ Proof.
   - simpl in H. injection H as <-. rewrite app_nil_r. exact Hinv.
   - assert (Hlen : length (done ++ [o]) = S (length done)) by (rewrite app_length; simpl; lia).
     replace (done ++ o :: cs) with ((done ++ [o]) ++ cs) by (rewrite <- app_assoc; reflexivity).
-    destruct o as [c0|]; simpl in H.
-    + destruct (match prev with Some p => negb (Bool.eqb (enabled c0) p) | None => false end); [discriminate|].
-      destruct (build dc bad c0) as [ob|] eqn:Eb; [|discriminate].
-      destruct (mget (key_of (host c0)) m) as [[[i2 c2] ob2]|] eqn:Eg.
-      * destruct (compat c0 c2 ob ob2) eqn:Ec; simpl in H; [|discriminate].
-        rewrite <- Hlen in H. eapply IH; [|exact H].
-        intros c Hin. rewrite mget_mset.
-        destruct (beq (key_of (host c0)) (key_of (host c))) eqn:Ek.
-        -- apply beq_eq in Ek.
-           apply in_app_or in Hin. destruct Hin as [Hin|[Heq|[]]].
-           ++ destruct (Hinv c Hin) as [i [c' [ob' [Hg Hb]]]].
-              rewrite <- Ek in Hg. rewrite Eg in Hg. injection Hg as <- <- <-.
-              apply compat_same in Ec. subst ob2. eauto.
-           ++ injection Heq as <-. eauto.
-        -- apply in_app_or in Hin. destruct Hin as [Hin|[Heq|[]]].
-           ++ apply Hinv; assumption.
-           ++ injection Heq as <-. rewrite beq_refl in Ek. discriminate.
-      * simpl in H. rewrite <- Hlen in H. eapply IH; [|exact H].
-        intros c Hin. rewrite mget_mset.
-        destruct (beq (key_of (host c0)) (key_of (host c))) eqn:Ek.
-        -- apply beq_eq in Ek.
-           apply in_app_or in Hin. destruct Hin as [Hin|[Heq|[]]].
-           ++ destruct (Hinv c Hin) as [i [c' [ob' [Hg Hb]]]].
-              rewrite <- Ek in Hg. rewrite Eg in Hg. discriminate.
-           ++ injection Heq as <-. eauto.
-        -- apply in_app_or in Hin. destruct Hin as [Hin|[Heq|[]]].
-           ++ apply Hinv; assumption.
-           ++ injection Heq as <-. rewrite beq_refl in Ek. discriminate.
-    + rewrite <- Hlen in H. eapply IH; [|exact H].
-      intros c Hin. apply in_app_or in Hin. destruct Hin as [Hin|[Heq|[]]]; [|discriminate].
-      apply Hinv; assumption.
+    rewrite mk_loop_cons in H. cbv zeta in H. set (c0 := cfg_of o) in *.
+    destruct (match prev with Some p => negb (Bool.eqb (enabled c0) p) | None => false end); [discriminate|].
+    destruct (build dc bad c0) as [ob|] eqn:Eb; [|discriminate].
+    destruct (mget (key_of (host c0)) m) as [[[i2 c2] ob2]|] eqn:Eg.
+    + destruct (compat c0 c2 ob ob2) eqn:Ec; simpl in H; [|discriminate].
+      rewrite <- Hlen in H. eapply IH; [|exact H].
+      intros o1 Hin. rewrite mget_mset.
+      destruct (beq (key_of (host c0)) (key_of (host (cfg_of o1)))) eqn:Ek.
+      * apply beq_eq in Ek.
+        apply in_app_or in Hin. destruct Hin as [Hin|[Heq|[]]].
+        -- destruct (Hinv o1 Hin) as [i [c' [ob' [Hg Hb]]]].
+           rewrite <- Ek in Hg. rewrite Eg in Hg. injection Hg as <- <- <-.
+           apply compat_same in Ec. subst ob2. eauto.
+        -- subst o1. fold c0. eauto.
+      * apply in_app_or in Hin. destruct Hin as [Hin|[Heq|[]]].
+        -- apply Hinv; assumption.
+        -- subst o1. fold c0 in Ek. rewrite beq_refl in Ek. discriminate.
+    + simpl in H. rewrite <- Hlen in H. eapply IH; [|exact H].
+      intros o1 Hin. rewrite mget_mset.
+      destruct (beq (key_of (host c0)) (key_of (host (cfg_of o1)))) eqn:Ek.
+      * apply beq_eq in Ek.
+        apply in_app_or in Hin. destruct Hin as [Hin|[Heq|[]]].
+        -- destruct (Hinv o1 Hin) as [i [c' [ob' [Hg Hb]]]].
+           rewrite <- Ek in Hg. rewrite Eg in Hg. discriminate.
+        -- subst o1. fold c0. eauto.
+      * apply in_app_or in Hin. destruct Hin as [Hin|[Heq|[]]].
+        -- apply Hinv; assumption.
+        -- subst o1. fold c0 in Ek. rewrite beq_refl in Ek. discriminate.
 Qed.
 
 Lemma group_own_settings dc bad cs g c :
@@ -479,8 +507,7 @@ Proof.
   unfold make_tls_config. destruct cs as [|o cs]; [discriminate|].
   destruct (mk_loop dc bad 0 None (o :: cs) []) as [e|m'] eqn:E; [discriminate|].
   destruct (first_enabled (o :: cs)); [|discriminate]. intro H. injection H as <-.
-  apply (mk_loop_own dc bad [] (o :: cs) None [] m'); [|exact E].
-  intros c0 [].
+  intro Hin. apply (mk_loop_own dc bad [] (o :: cs) None [] m' (fun _ F => match F with end) E (Some c) Hin).
 Qed.
 
 (* ------------------------------------------------------------------ defaults *)
@@ -622,35 +649,36 @@ Qed.
 (* domain of the TLS group *)
 Lemma mk_loop_none dc bad cs : forall i prev m m' k,
   mk_loop dc bad i prev cs m = inr m' ->
-  (mget k m' = None <-> (mget k m = None /\ forall c, In (Some c) cs -> key_of (host c) <> k)).
+  (mget k m' = None <-> (mget k m = None /\ forall o, In o cs -> key_of (host (cfg_of o)) <> k)).
 Proof.
-  induction cs as [|o cs IH]; simpl; intros i prev m m' k H.
-  - injection H as <-. split; [intro H; split; [exact H|intros ? []]|intros [H _]; exact H].
-  - destruct o as [c0|].
-    + destruct (match prev with Some p => negb (Bool.eqb (enabled c0) p) | None => false end); [discriminate|].
-      destruct (build dc bad c0) as [ob|]; [|discriminate].
-      destruct (match mget (key_of (host c0)) m with Some (_, c2, ob2) => negb (compat c0 c2 ob ob2) | None => false end);
-        [discriminate|].
-      rewrite (IH _ _ _ _ k H). rewrite mget_mset. split.
-      * intros [H1 H2]. destruct (beq (key_of (host c0)) k) eqn:E; [discriminate|].
-        split; [exact H1|]. intros c [Heq|Hin]; [injection Heq as <-; apply beq_false_neq; exact E|apply H2; exact Hin].
-      * intros [H1 H2]. split.
-        -- destruct (beq (key_of (host c0)) k) eqn:E; [|exact H1].
-           apply beq_eq in E. exfalso. apply (H2 c0 (or_introl eq_refl)). exact E.
-        -- intros c Hin. apply H2. right. exact Hin.
-    + rewrite (IH _ _ _ _ k H). split.
-      * intros [H1 H2]. split; [exact H1|]. intros c [Heq|Hin]; [discriminate|apply H2; exact Hin].
-      * intros [H1 H2]. split; [exact H1|]. intros c Hin. apply H2. right. exact Hin.
+  induction cs as [|o cs IH]; intros i prev m m' k H.
+  - simpl in H. injection H as <-. split; [intro H; split; [exact H|intros ? []]|intros [H _]; exact H].
+  - rewrite mk_loop_cons in H. cbv zeta in H. set (c0 := cfg_of o) in *.
+    destruct (match prev with Some p => negb (Bool.eqb (enabled c0) p) | None => false end); [discriminate|].
+    destruct (build dc bad c0) as [ob|]; [|discriminate].
+    destruct (match mget (key_of (host c0)) m with Some (_, c2, ob2) => negb (compat c0 c2 ob ob2) | None => false end);
+      [discriminate|].
+    rewrite (IH _ _ _ _ k H). rewrite mget_mset. split.
+    + intros [H1 H2]. destruct (beq (key_of (host c0)) k) eqn:E; [discriminate|].
+      split; [exact H1|]. intros o1 [<-|Hin]; [apply beq_false_neq; exact E|apply H2; exact Hin].
+    + intros [H1 H2]. split.
+      * destruct (beq (key_of (host c0)) k) eqn:E; [|exact H1].
+        apply beq_eq in E. exfalso. apply (H2 o (or_introl eq_refl)). exact E.
+      * intros o1 Hin. apply H2. right. exact Hin.
 Qed.
 
 Lemma group_domain dc bad cs g k :
   make_tls_config dc bad cs = MkGroup g ->
   (mget k g = None <-> forall c, In (Some c) cs -> key_of (host c) <> k).
 Proof.
+  intro Hmk. destruct (group_all_enabled _ _ _ _ Hmk) as [Hnn _]. revert Hmk.
   unfold make_tls_config. destruct cs as [|o cs]; [discriminate|].
   destruct (mk_loop dc bad 0 None (o :: cs) []) as [e|m'] eqn:E; [discriminate|].
   destruct (first_enabled (o :: cs)); [|discriminate]. intro H. injection H as <-.
-  rewrite (mk_loop_none _ _ _ _ _ _ _ k E). simpl. split; [intros [_ H]; exact H|intro H; split; [reflexivity|exact H]].
+  rewrite (mk_loop_none _ _ _ _ _ _ _ k E). split.
+  - intros [_ H] c Hin. exact (H (Some c) Hin).
+  - intro H. split; [reflexivity|]. intros o1 Hin. destruct o1 as [c|]; [exact (H c Hin)|].
+    exfalso. exact (Hnn None Hin eq_refl).
 Qed.
 
 Lemma to_lower_nonempty s : s <> [] -> to_lower s <> [].
